@@ -111,6 +111,7 @@ var URLPolicies = map[string]func(*url.URL) bool{
 	"no-query":          func(u *url.URL) bool { return u.RawQuery == "" },
 	"never":             func(u *url.URL) bool { return false },
 	"always":            func(u *url.URL) bool { return true },
+	"nil":               nil, // a nil callback: the builder accepts it (used by C14 only, never evaluated by a view)
 }
 
 // Rewriters is the registry of src rewriters. Each dereferences its argument.
